@@ -197,7 +197,7 @@ func batchUpdateSub(r *ev.Run, name string) {
 						r.Violate(ev.Violation{Signature: sig, Sub: name, Message: msg, Case: c})
 					}
 					if (ix*12+int(evals))%20011 == 5 {
-						r.Sample(map[string]any{"sub": name, "case": c, "outcome": oc})
+						sample(r, name, map[string]any{"sub": name, "case": c, "outcome": oc})
 					}
 				}
 			}
@@ -353,7 +353,7 @@ func batchReadSub(r *ev.Run, name string) {
 						r.Violate(ev.Violation{Signature: sig, Sub: name, Message: msg, Case: c})
 					}
 					if (ix*216+int(evals))%150001 == 5 {
-						r.Sample(map[string]any{"sub": name, "case": c, "outcome": oc})
+						sample(r, name, map[string]any{"sub": name, "case": c, "outcome": oc})
 					}
 				}
 			}
@@ -507,7 +507,7 @@ func findMissingSub(r *ev.Run, name string) {
 								r.Violate(ev.Violation{Signature: sig, Sub: name, Message: msg, Case: c})
 							}
 							if sub.Evaluations%4001 == 9 {
-								r.Sample(map[string]any{"sub": name, "case": c, "outcome": oc})
+								sample(r, name, map[string]any{"sub": name, "case": c, "outcome": oc})
 							}
 						}
 					}
@@ -663,7 +663,7 @@ func actionCacheSub(r *ev.Run, name string, depth int) {
 				r.Violate(ev.Violation{Signature: sig, Sub: name, Message: msg, Case: c})
 			}
 			if (ix*4+int(evals))%3001 == 5 {
-				r.Sample(map[string]any{"sub": name, "case": c, "outcome": oc})
+				sample(r, name, map[string]any{"sub": name, "case": c, "outcome": oc})
 			}
 		}
 		st.merge(evals, nontrivial, nil)
